@@ -94,12 +94,29 @@ var (
 	watchOnce sync.Once
 )
 
+// hangCleanup ends the helper processes of the harness that has some (set in its main_test.go)
+var hangCleanup func()
+
+// reportHang writes the case as the replay of a violation "did not return" and ends the process: the goroutine that is
+// stuck cannot be stopped.
+func reportHang(id, part string, c any, rec *ev.Recorder, msg string) {
+	p := ev.WriteReplay(id, part, c, fmt.Errorf("%s", msg))
+	if rec != nil {
+		rec.Flush()
+	}
+	fmt.Printf("HANG %s/%s: %s [replay %s]\n", id, part, msg, p)
+	if hangCleanup != nil {
+		hangCleanup()
+	}
+	os.Exit(1)
+}
+
 func watchFlights() {
 	go func() {
 		for {
 			time.Sleep(2 * time.Second)
 			if f := curFlight.Load(); f != nil && time.Since(f.start) > flightBudget {
-				hang(f.id, f.part, f.c, f.rec, fmt.Sprintf("the case did not finish within %v (cases of this part take from microseconds to a few seconds): a call it makes blocks, or its work does not end", flightBudget))
+				reportHang(f.id, f.part, f.c, f.rec, fmt.Sprintf("the case did not finish within %v (cases of this part take from microseconds to a few seconds): a call it makes blocks, or its work does not end", flightBudget))
 			}
 		}
 	}()
